@@ -167,7 +167,7 @@ Lemma xmlns_xmlns_illegal : forall v attrs a, forallb (decl_legal v) (sp_decls (
   ~ (ra_pfx a = s_xmlns /\ ra_loc a = s_xmlns).
 Proof.
   intros v attrs a H Hin [A B]. rewrite forallb_forall in H.
-  assert (Hd : In (s_xmlns, ra_val a) (sp_decls (map sp_of attrs))).
+  assert (Hd : In (s_xmlns, ra_nval a) (sp_decls (map sp_of attrs))).
   { unfold sp_decls. apply in_flat_map. exists (sp_of a). split; [apply in_map; exact Hin|].
     unfold sp_decl_of, sp_of. cbn [spa_pfx spa_loc spa_val]. rewrite A, B. left. reflexivity. }
   specialize (H _ Hd). unfold decl_legal in H. cbn in H. discriminate.
